@@ -211,6 +211,16 @@ def run(ctx, res):
     for c in cases:
         if len(set(c["xs"])) > 1:
             res.nontrivial.add(repr((c["cfg"], c["xs"])))
+    # --- the statistic the theorems are about, on samples far longer than any enumeration reaches (65..3000 draws,
+    #     integer-typed u, other units): exact running sums and null means, published product, well-formed output
+    from . import c11 as _c11, c12 as _c12
+    lg = nnm.long_cases(ctx.rng, ctx.n(150, 1500))
+    for c in lg:
+        res.oracle_runs += 1
+        res.evaluations += 1
+        for what in [w for w, _ in _c12.oracle_defs(c)] + _c11.oracle(c):
+            res.oracle_violations.append({"what": f"{c['cfg']['kind']}: {what} (long sample: the statistic is not the supermartingale of the theorems)",
+                                          "input": nnm.case_json(c), "signature": f"C01:long:{c['cfg']['kind']}:{what}"})
     # --- without replacement: all N! orderings
     npop = ctx.n(70, 600)
     maxN = ctx.n(6, 7)
@@ -316,7 +326,7 @@ def run(ctx, res):
                 "of finite-support null laws, rejection frequency compared with alpha at every attained p-value; "
                 "non-trivial = non-constant population / sample")
     res.samples = [nnm.case_json(c) for c in cases[:2]]
-    res.stats = dict(nnm.branch_stats(cases), **hist)
+    res.stats = dict(nnm.branch_stats(cases), **hist, **nnm.long_stats(lg))
     res.assumptions = ["finite N: full theorems for ALPHA (all estimators), betting (fixed, aGRAPA), SPRT, Kaplan-Kolmogorov; "
                        "N=infinity: theorems are PARTIAL (finite-support laws with rational masses, every horizon) for ALPHA, betting, SPRT, "
                        "Kaplan-Markov, Kaplan-Wald; continuous laws are outside the formal statement",
